@@ -1045,6 +1045,17 @@ class Interp:
             raise Unsupported(f"call of {f.dotted}")
         if isinstance(f, VExternal):
             allargs = ([f.bound] if f.bound is not None else []) + [force(ctx, a) for a in args]
+            if f.dotted == "str.join" and not kwargs and len(allargs) == 2 and isinstance(allargs[0], VStr) and isinstance(allargs[1], (VList, VTuple)):
+                # separator.join(<list built on this path>): the elements are known one by one (a list of unknown length is a symlist: Unsupported)
+                parts = [force(ctx, x) for x in allargs[1].items]
+                if all(isinstance(x, VStr) for x in parts):
+                    out = []
+                    for i, x in enumerate(parts):
+                        if i:
+                            out.append(allargs[0].t)
+                        out.append(x.t)
+                    return VStr(smt.Concat(*out) if out else smt.sstr(""))
+                raise PyRaise("TypeError", [VStr(smt.sstr("sequence item: expected str instance"))])
             if f.dotted in ("str.startswith", "str.endswith") and not kwargs and len(allargs) == 2 and all(isinstance(a, VStr) for a in allargs):
                 op = "str.prefixof" if f.dotted == "str.startswith" else "str.suffixof"
                 return VBool(f"({op} {allargs[1].t} {allargs[0].t})")
